@@ -245,9 +245,9 @@ def jobs(tier):
         J("iint.iintTimesPlusS.schoolbook.d_%s" % tag, "h_iintTimesPlusS_schoolbook", ["iintTimesPlusS"], st("a") + st("r0") + ["alias", "c"], cls="B",
           bound="multiplicand <= 3 digits (every value), multiplier digit = %s, any digit addend" % dv, unwind=UB, timeout=600, mem_gb=10, assumed=[SB], defs=["-DSB_D=" + dv])
     # second operand: ONE constant digit (two constant digits: no result in 600 s, even for 2^32; PROBE only)
-    BCONST = [("0_ffffffff", "0xFFFFFFFFU", "0U"), ("0_3b9aca00", "1000000000U", "0U")]
-    if PROBE:
-        BCONST += [("ffffffff_ffffffff", "0xFFFFFFFFU", "0xFFFFFFFFU"), ("1_0", "0U", "1U"), ("12345678_9abcdef1", "0x9ABCDEF1U", "0x12345678U")]
+    BCONST = [("0_ffffffff", "0xFFFFFFFFU", "0U")]
+    if PROBE:       # (10^9 as the digit: no result in 1500 s)
+        BCONST += [("0_3b9aca00", "1000000000U", "0U"), ("ffffffff_ffffffff", "0xFFFFFFFFU", "0xFFFFFFFFU"), ("1_0", "0U", "1U"), ("12345678_9abcdef1", "0x9ABCDEF1U", "0x12345678U")]
     for tag, b0, b1 in (BCONST if tier == "thorough" else BCONST[:1]):
         J("iint.iintTimes.schoolbook.b_%s" % tag, "h_iintTimes_schoolbook", ["iintTimes"], st("a") + st("b") + st("r"), cls="B",
           bound="first operand <= 2 digits (every value); second operand's digits are the constants %s, %s (its length 0..2 symbolic)" % (b1, b0),
